@@ -17,7 +17,7 @@ structure SegOut where
   err : String
 
 /-- One outermost call into the runtime with the mechanism-level drain loop. -/
-def runSeg (prog : Prog) (seg : Seg) : M String := runSegWith drain prog seg
+def runSeg (prog : Prog) (seg : Seg) (u : StU) : String × StU := runSegWith drain prog seg u
 
 def aliasOf (seen : List Nat) (p : Nat) : Option Nat :=
   let rec go : List Nat → Nat → Option Nat
@@ -38,23 +38,24 @@ def stateStr : PState → String
   | .pending => "P" | .fulfilled => "F" | .rejected => "R"
 
 def runProg (prog : Prog) : String :=
-  let rec go (segs : List Seg) (st : St) (acc : List String) : St × List String :=
+  let rec go (segs : List Seg) (u : StU) (acc : List String) : StU × List String :=
     match segs with
-    | [] => (st, acc)
+    | [] => (u, acc)
     | s :: rest =>
-      let evBefore := st.events.length
-      let trBefore := st.rk.val.tracker.length
-      let (err, st') := (runSeg prog s).run st
-      let evs := (st'.events.take (st'.events.length - evBefore)).reverse
-      let k := st'.rk.val
+      let evBefore := u.st.events.length
+      let trBefore := u.k.tracker.length
+      let (err, u') := runSeg prog s u
+      let evs := (u'.st.events.take (u'.st.events.length - evBefore)).reverse
+      let k := u'.k
       let seen := firstSeen k.tracker
       let trs := (k.tracker.drop trBefore).map (trackStr seen)
       let line := "ev=" ++ ",".intercalate evs ++ ";tr=" ++ ",".intercalate trs ++ ";q=" ++
         toString k.jobs.length ++ ";err=" ++ err
-      go rest st' (acc ++ [line])
-  let (st, lines) := go prog.segs {} []
+      go rest u' (acc ++ [line])
+  let (u, lines) := go prog.segs StU.init []
+  let st := u.st
   if st.oof then "OOF" else
-  let k := st.rk.val
+  let k := u.k
   let seen := firstSeen k.tracker
   let rec states (sl : List (Option Nat)) (i : Nat) : List String :=
     match sl with
